@@ -317,7 +317,7 @@ Definition c_dec_prim (k : kind) (tag : N) : M (val * N) :=
       let^ b := c_copy l in
       let^ _ := (if pad8 l =? 0 then mret [] else c_read_n (pad8 l)) in
       (* string(b) copies once more; the []byte / string header is boxed *)
-      let^ _ := charge (K_BOX + match k with KStr => blen b | _ => 0 end) in
+      let^ _ := charge (K_BOX + match k with KStr => l | _ => 0 end) in   (* CopyN succeeded: len(b) = l *)
       mret (match k with KBytes => VBytes b | _ => VStr b end, 8 + l + pad8 l)
   end.
 
@@ -412,8 +412,7 @@ with c_dec_fields (fl : flist) (i : nat) (explen actual nsum : N) (cur : vlist) 
 with c_dec_cases (cs : dcases) (key : val) (a : fattr) {struct cs} : M (val * N) :=
   match cs with
   | DNil => (let^ _ := charge K_ERR in mfail Err)
-  | DCase k s r => if key_matches k key then (let^ _ := charge K_STRUCT in c_dec_value s a VNone)
-                   else c_dec_cases r key a
+  | DCase k s r => if key_matches k key then c_dec_value s a VNone else c_dec_cases r key a
   end.
 
 Definition c_dec_top (ty : string) (tag : N) (fl : flist) : M (val * N) :=
